@@ -112,6 +112,16 @@ func (e *Engine) opsSpec(env *Env, fun string, args []Expr) (TV, bool, error) {
 			b = App("to_real", SReal, b)
 		}
 		return TV{App("/", SReal, a, b), types.Typ[types.Float64]}, true, nil
+	case "itoa":
+		// decimal rendering of an integer (the term fmt.Sprintf's %d model produces)
+		if len(args) != 1 {
+			return TV{}, true, fmt.Errorf("itoa(a)")
+		}
+		a, err := e.evalTerm(env, args[0])
+		if err != nil {
+			return TV{}, true, err
+		}
+		return TV{decimalOf(a), types.Typ[types.String]}, true, nil
 	case "real":
 		if len(args) != 1 {
 			return TV{}, true, fmt.Errorf("real(a)")
@@ -152,4 +162,9 @@ func (e *Engine) realBinary(op string, a, b Term) (TV, bool) {
 		return TV{App(op, SBool, a, b), types.Typ[types.Bool]}, true
 	}
 	return TV{}, false
+}
+
+// decimalOf: strconv.Itoa as an SMT term.
+func decimalOf(val Term) Term {
+	return Ite(Ge(val, IntLit(0)), App("str.from_int", SString, val), App("str.++", SString, StrLit("-"), App("str.from_int", SString, Sub(IntLit(0), val))))
 }
